@@ -21,3 +21,14 @@ pub fn h_probe_language_en() {
     observe_str("null", &l.errors.null);
     reach("probe.language_en");
 }
+
+/// native only: the English function-name table (variant=NAME per line), read by the engine to build the
+/// `Language.functions` value concretely
+pub fn h_probe_function_names() {
+    let l = language_en();
+    for f in crate::functions::Function::into_iter() {
+        let line = format!("{:?}={}", f, f.to_localized_name(l));
+        observe_str("fn", &line);
+    }
+    reach("probe.function_names");
+}
